@@ -89,6 +89,9 @@ Definition skeleton_of (k : kind) (fallible : bool) : list stok :=
   | (OwnedIntoExisting | RefIntoExisting), true => sk_try_into_existing
   end.
 
+Lemma Ok_inj {A} (a b : A) : @Ok A a = Ok b -> a = b.
+Proof. intro H; injection H; auto. Qed.
+
 Lemma quote_trait_skeleton : forall t c ts,
     quote_trait t c = Ok ts -> exists e, ts = inst e (skeleton_of (c_kind c) (c_fallible c)).
 Proof.
@@ -98,7 +101,7 @@ Proof.
     repeat match goal with
            | |- context [bind ?r _] => destruct r; cbn [bind]; try discriminate
            end;
-    intro H; injection H as <-; eexists; reflexivity.
+    intro H; apply Ok_inj in H; rewrite <- H; eexists; reflexivity.
 Qed.
 
 (* the impls are the expansions of the contexts, concatenated in context order *)
